@@ -1,6 +1,8 @@
 CONSTANTS
   Tier = "quick"
   Seed = 1
+  FamLo = 1
+  FamHi = 0
   Start = 1
 INIT JInit
 NEXT JNext
